@@ -33,5 +33,14 @@ def replay(rep, path):
     margs = [unhex(x) for x in d["args_hex"]]
     mo = run_model([(d["fn"], margs)])[0]
     print("model:", mo, "recorded impl:", d.get("impl_out"))
+    if d.get("fn", "").startswith("from_str") and d.get("desc"):
+        # re-run the implementation on the recorded literal and compare with the model and the exact rounding
+        from fractions import Fraction
+        import mpmath.libmp as L
+        text = d["desc"][1]; man, exp = margs[0], margs[1]
+        io = call_impl(L.from_str, text, d["prec"], d["rnd"])
+        print("impl now:", io)
+        if list(io) != list(mo):
+            rep.violation("from_str(%r, %d, %r) differs from the model of from_str on the parsed pair" % (text, d["prec"], d["rnd"]), d)
     rep.coverage = {"obligations": 1, "discharged": 1, "checker_cmd": "replay", "trusted_base": [],
                     "evaluations": 1, "distinct_nontrivial": 1, "rule": "replay", "samples": [d]}
